@@ -332,6 +332,12 @@ class ShapeEval:
             if isinstance(x, Tup):
                 return Num(len(x.items))
             return Top("len")
+        if n in ("ones_like", "zeros_like", "empty_like", "full_like"):
+            if isinstance(x, (Arr, Scalar)):
+                return x
+            if isinstance(x, Num):
+                return Scalar()
+            return Top(n)
         if n in ("ones", "zeros", "empty", "full"):
             d = vals[0] if recv is None else None
             if isinstance(d, Num):
